@@ -17,7 +17,8 @@ REGEXES = ["ASCII_RE", "QUOTED_SPLIT_RE", "QUOTED_RE", "LOWERCASE_QUOTED_RE"]
 # the property's token alphabet
 TOKENS = ["a", "Z", "1", "\xe9", "€", " ", "/", "?", "#", "&", "=", "@", ":", "+",
           "%41", "%c3%a9", "%C3%A9", "%20", "%2F", "%3F", "%23", "%26", "%3D", "%40", "%3A", "%25", "%2B",
-          "%2541", "%E9", "%00", "%0A", "%7F", "%C2%80", "%", "%4", "%zz", "%3", "%e2%82%ac", "%2f", "%aB", "~", "."]
+          "%2541", "%E9", "%00", "%0A", "%7F", "%C2%80", "%", "%4", "%zz", "%3", "%e2%82%ac", "%2f", "%aB", "~", ".",
+          "%34", "%31", "4", "F", "%E0%80%AF", "%ED%A0%80", "%F0%80%80%AF", "%F4%90%80%80", "%F0%9F%98%80", "%C0%AF", "%E2%82", "%80"]
 
 UNQUOTERS = [("auth", "safely_unquote_auth_item"), ("path", "safely_unquote_path"),
              ("query", "safely_unquote_query_item"), ("fragment", "safely_unquote_fragment")]
@@ -57,23 +58,63 @@ def gen_inputs(tier, rng):
     return out, exh
 
 
+def split_tokens(s):
+    """Greedy split of a generated string back into alphabet tokens (longest first)."""
+    toks = sorted(TOKENS, key=len, reverse=True)
+    out = []
+    i = 0
+    while i < len(s):
+        for t in toks:
+            if s.startswith(t, i):
+                out.append(t)
+                i += len(t)
+                break
+        else:
+            out.append(s[i])
+            i += 1
+    return out
+
+
+def neighbours(s, limit=1500):
+    """Single-token substitutions, deletions and insertions around a string."""
+    ts = split_tokens(s)
+    small = ["%", "%4", "1", "4", "F", "a", "%31", "%34", "%41", "%25", "%E9", "%C3%A9", " ", "/", "%2F"]
+    out = []
+    for i in range(len(ts)):
+        out.append("".join(ts[:i] + ts[i + 1:]))
+        for t in TOKENS:
+            out.append("".join(ts[:i] + [t] + ts[i + 1:]))
+    for i in range(len(ts) + 1):
+        for t in small:
+            out.append("".join(ts[:i] + [t] + ts[i:]))
+    seen = set()
+    res = []
+    for x in out:
+        if x not in seen:
+            seen.add(x)
+            res.append(x)
+    return res[:limit]
+
+
+def load_corpus():
+    p = os.path.join(common.VERIF, "tools", "corpus", "C14.json")
+    try:
+        return json.load(open(p))
+    except IOError:
+        return []
+
+
 def known_index():
     ks = [k for k in common.load_known() if k.get("property") == "C14" and k.get("status") == "known"]
     return ks
 
 
-def run(res, tier, rng):
-    F = impl_funcs()
-    inputs, exh = gen_inputs(tier, rng)
-    corpus = ["%2541", "%4%31", "%%34%31", "%E9", "\xe9%A9", "%C3%41", "%7F", "%C2%80", "a b", "a b%41", "%2F", "%2B", "%e9%C3%A9%e9"]
-    inputs = corpus + inputs
-    res.exhaustive = True
-    # pass 1: implementation outputs
+def evaluate(res, F, inputs, nontriv):
+    """Run implementation, model and deciders on the inputs; returns the inputs where model != impl."""
     impl_out = {}
     for s in inputs:
         for name, f in F.items():
             impl_out[(name, s)] = call(f, s)
-    # pass 2: model outputs + deciders on implementation outputs
     reqs = []
     meta = []
     for s in inputs:
@@ -91,9 +132,7 @@ def run(res, tier, rng):
                 reqs.append(("c14spec", [which, s, o]))
                 meta.append(("spec", fname, s))
     outs = common.run_driver_parallel(reqs, jobs=12)
-    nontriv = set()
-    known = known_index()
-    failed_clauses = {}
+    differing = []
     for (kind, name, s), got in zip(meta, outs):
         res.evaluations += 1
         o = impl_out[(name, s)]
@@ -101,6 +140,7 @@ def run(res, tier, rng):
             if o != s:
                 nontriv.add((name, s))
             if got != o:
+                differing.append(s)
                 res.violation("correspondence", "model of %s differs from implementation" % name,
                               input=dict(function=name, arg=s), impl=o, model=got)
         else:
@@ -125,13 +165,38 @@ def run(res, tier, rng):
         o = impl_out[("safely_quote", s)]
         if isinstance(o, str) and not o.isascii():
             res.violation("property", "safely_quote output is not ASCII", input=dict(arg=s), impl=o)
+    return differing, impl_out
+
+
+def run(res, tier, rng):
+    F = impl_funcs()
+    inputs, exh = gen_inputs(tier, rng)
+    corpus = ["%2541", "%4%31", "%%34%31", "%E9", "\xe9%A9", "%C3%41", "%7F", "%C2%80", "a b", "a b%41", "%2F", "%2B", "%e9%C3%A9%e9",
+              "%%341", "50%%32Fx", "tag%23top", "t%c3%a9st", "%F4%90%80%80", "%ED%A0%80"] + load_corpus()
+    inputs = corpus + inputs
+    res.exhaustive = True
+    nontriv = set()
+    differing, impl_out = evaluate(res, F, inputs, nontriv)
+    # focused search (DESIGN 2.4): when model and implementation differ, look for an input on which the
+    # property itself fails among the single-token edits of the differing inputs
+    if differing and not any(v["kind"] == "property" for v in res.violations):
+        seen = set(inputs)
+        around = []
+        for s in list(dict.fromkeys(differing))[:15]:
+            for x in neighbours(s):
+                if x not in seen:
+                    seen.add(x)
+                    around.append(x)
+        res.extra["focused_search_inputs"] = len(around)
+        evaluate(res, F, around, nontriv)
     n1 = regexcorr.run(res, rng, names=REGEXES, exh_len=3 if tier == "quick" else 4, nrand=300 if tier == "quick" else 3000)
     res.evaluations += n1
     res.nontrivial = nontriv
     res.rule = ("every string of <= %d tokens over the property's %d-token alphabet (literal ASCII / non-ASCII, space, raw delimiters, escapes of every class, "
-                "%%2541, %%E9, controls, malformed escapes), then seeded random strings of 3..12 tokens; each through the 4 safely_unquote_*, safely_quote, upper_quoted and "
-                "3 raw unquote() flag settings: model vs implementation, Spec/C14 deciders on the implementation's output, idempotence. "
+                "%%2541, %%E9, overlong / surrogate / out-of-range UTF-8 escapes, controls, malformed escapes), then seeded random strings of 3..12 tokens; each through the 4 "
+                "safely_unquote_*, safely_quote, upper_quoted and 3 raw unquote() flag settings: model vs implementation, Spec/C14 deciders on the implementation's output, "
+                "idempotence; when model and implementation differ, all single-token edits of the differing inputs are searched for a property failure. "
                 "Non-trivial = distinct (function, input) on which the function changes its input." % (exh, len(TOKENS)))
-    res.sample(dict(function="safely_unquote_path", arg="%c3%a9%2F%2541 x", impl=impl_out.get(("safely_unquote_path", "%2541"))))
+    res.sample(dict(function="safely_unquote_path", arg="%2541", impl=impl_out.get(("safely_unquote_path", "%2541"))))
     res.sample(dict(function="safely_quote", arg=inputs[300], impl=impl_out[("safely_quote", inputs[300])]))
     res.theorems = THEOREMS
